@@ -127,9 +127,8 @@ static void viol(const char *key, const char *fmt, ...) {
   vsnprintf(msg, sizeof(msg), fmt, ap);
   va_end(ap);
   vh_violation("C15", key,
-               "%s [replay: fmtmon_log --seed %llu --mode %s --first %lld --count 1 --exhaustive %d --hw %d%s]",
-               msg, (unsigned long long)g_seed, g_mode, (long long)g_case, g_exhaustive, g_hw,
-               g_maxlog ? " --maxlog <same>" : "");
+               "%s [replay: fmtmon_log --seed %llu --mode %s --first %lld --count 1 --exhaustive %d --hw %d --alts %d --maxlog %ld]",
+               msg, (unsigned long long)g_seed, g_mode, (long long)g_case, g_exhaustive, g_hw, g_alts, g_maxlog);
 }
 
 /* ------------------------------------------------------------------ rng / data pools */
@@ -1577,7 +1576,7 @@ int main(int argc, char **argv) {
   if (g_hw) {
     if (ldb_crc32c_init()) CNT(crc_hw_active, 1);
   }
-  if (g_maxlog && g_maxlog < 2000) vh_fatal("--maxlog must be >= 2000");
+  if (g_maxlog && g_maxlog < 2000) vh_fatal("--maxlog must be 0 (default) or >= 2000");
   if (g_dir) vh_mkdir_p(g_dir);
   init_pools();
   ldb_buffer_init(&G.dst);
